@@ -25,17 +25,21 @@ def sh(cmd, cwd=None, env=None, timeout=1800):
 
 
 meta = {'id': name, 'property': pid, 'source': 'independent sub-agent given only the property text'}
+if name in ('C07-2', 'C05-2'):
+  meta['ported'] = 'the original patch conflicted with a later fix: commit; re-applied by hand to the current tree, same change'
 patch = f'{src}/patch{n}.diff'
 demo = f'{src}/demo{n}.py'
 notes = f'{src}/notes{n}.md'
 if not os.path.exists(patch):
   print(name, 'no patch')
   sys.exit(0)
-sh('git checkout -q --detach main && git checkout -q -- . && git clean -fdq', cwd=scratch)
+sh('git reset -q --hard; git checkout -q --detach main && git reset -q --hard && git clean -fdq', cwd=scratch)
 rc, o = sh(f'git apply {patch}', cwd=scratch)
 if rc != 0:
   rc, o = sh(f'git apply --3way {patch}', cwd=scratch)
   meta['applied_with'] = '--3way'
+  if 'conflict' in o.lower():
+    rc = 1
 if rc != 0:
   meta['status'] = 'patch does not apply to the current tree: ' + o[-300:]
   print(name, meta['status'])
@@ -80,6 +84,6 @@ shutil.copy(demo, f'{out}/demo.py')
 if os.path.exists(notes):
   shutil.copy(notes, f'{out}/notes.md')
 json.dump(meta, open(f'{out}/meta.json', 'w'), indent=1)
-sh('git checkout -q -- . && git clean -fdq', cwd=scratch)
+sh('git reset -q --hard && git clean -fdq', cwd=scratch)
 print(name, 'confirmed' if meta['confirmed'] else 'NOT-CONFIRMED', 'detected_by', meta['detected_by'],
       {p: c['failed'][:2] for p, c in checks.items()})
